@@ -239,8 +239,9 @@ example :
 example :
     let s := IW.empty.run [.add ⟨.ext 0, true, false, [1]⟩, .add ⟨.self, true, true, [1, 2]⟩]
     let ops : List IWOp := [.put ⟨false, 1, 1⟩, .get 0, .put ⟨false, 2, 2⟩, .put ⟨true, 0, 0⟩]
+    s.rules = [⟨.ext 0, true, false, [1]⟩] ++ ⟨.self, true, true, [1, 2]⟩ :: [] ∧
     (∀ r' ∈ [(⟨.ext 0, true, false, [1]⟩ : Rule)] ++ [], r'.target ≠ .self) ∧ (∀ r', IWOp.add r' ∉ ops) := by
-  refine ⟨by decide, ?_⟩
+  refine ⟨by decide, by decide, ?_⟩
   intro r' h; simp at h
 
 /-- without any self rule the own log is exactly the sequence of puts -/
